@@ -5,7 +5,7 @@ SPEC = {
     "harness": "hx-chain",
     "harness_args": ["C03"],
     "translators": [["const2v_c20.py"], ["const2v_misc.py"]],
-    "level_text": "Proof (Coq): the acceptance pipeline (HeaderVerifier: PoW bit, number, epoch well-formed / successor, timestamp above the past median and at most 15 s ahead; structure; the UnclesVerifier loop with its `included` map; TwoPhaseCommitVerifier's window walk; epoch / reward / DAO / extension / transaction verdicts as bits decided by the models of C07 / C06 / C19 / C04) accepts a block exactly when the declarative rules hold (c03_pipeline_iff_rules, c03_uncles_loop_iff, c03_commit_window via the C20 window theorem, c03_median_spec); a block that fails leaves tip, total difficulty and every other record untouched (c03_refused_no_effect) and neither it nor anything built on it is ever the tip (c03_invalid_never_canonical, from the C01 invariant). Tie: on real nodes the next block of prepared contexts is offered through HeaderVerifier + chain service in valid variants on rule boundaries and in mutants that break exactly one rule; accept/reject must be as constructed, a refusal must leave tip and canonical columns byte-identical, a heavier extension of a refused branch must not become canonical; the model recomputes every verdict from measured header fields, ancestor timestamps, uncle data and proposal sets (vm_compute). Block cycle limit: every other context runs with consensus max_block_cycles = exactly the cycles of its base candidate (cycles of one always-success spend measured on the first accepted block of the run): the base is valid at the limit; one more committed transaction is rejected, and so is a sibling carrying the same transactions once they are in the verification cache (Txs rule bit of the model).",
+    "level_text": "Proof (Coq): the acceptance pipeline (HeaderVerifier: PoW bit, number, epoch well-formed / successor, timestamp above the past median and at most 15 s ahead; structure; the UnclesVerifier loop with its `included` map; TwoPhaseCommitVerifier's window walk; epoch / reward / DAO / extension / transaction verdicts as bits decided by the models of C07 / C06 / C19 / C04) accepts a block exactly when the declarative rules hold (c03_pipeline_iff_rules, c03_uncles_loop_iff, c03_commit_window via the C20 window theorem, c03_median_spec); a block that fails leaves tip, total difficulty and every other record untouched (c03_refused_no_effect) and neither it nor anything built on it is ever the tip (c03_invalid_never_canonical, from the C01 invariant). Tie: on real nodes the next block of prepared contexts is offered through HeaderVerifier + chain service in valid variants on rule boundaries and in mutants that break exactly one rule; accept/reject must be as constructed, a refusal must leave tip and canonical columns byte-identical, a heavier extension of a refused branch must not become canonical; the model recomputes every verdict from measured header fields, ancestor timestamps, uncle data and proposal sets (vm_compute). Block cycle limit: every other context runs with consensus max_block_cycles = exactly the cycles of its base candidate (cycles of one always-success spend measured on the first accepted block of the run): the base is valid at the limit; one more committed transaction is rejected, and so is a sibling carrying the same transactions once they are in the verification cache (Txs rule bit of the model). In the cache model (Tx/Cache.v verify_block: the sum over ALL transactions' cycles, entries cached before the comparison) a block over the limit is refused cold and again with its transactions cached (c03_block_over_cycle_limit_refused_twice); summing only freshly verified transactions accepts it the second time (c03_cycle_sum_of_fresh_only_refuted: seeded change C03r4).",
     "level_note": "Trusted: Coq kernel; hand-written model Chain/Rules.v (correspondence-checked). In the model the structure / epoch-target / reward / DAO / extension / transaction verdicts are input bits (their rules are the subject of C04, C06, C07, C19); the harness sets such a bit from the kind of the mutant and the real verifier must then reject — a verifier that wrongly accepts is caught by the implementation-side predicate, not by the model. PoW is a bit (dummy engine in the harness; eaglesong is exercised by C07). Wall clock through ckb_systemtime faketime.",
     "trusted_base": COMMON_TB + [
         "translator tools/const2v_misc.py (regular expressions over the constant declarations; the generated gen/ParamsMiscTie.v proves the models' constants equal to them)",
